@@ -6137,33 +6137,33 @@ let has_cookies o =
                     | ROCookies _ -> true
                     | _ -> false) o
 
-(** val routs_eqb : proj -> rout list -> rout list -> bool **)
+(** val routs_eqb : proj -> bool -> rout list -> rout list -> bool **)
 
-let routs_eqb p model obs =
-  if has_cookies obs
+let routs_eqb p ck model obs =
+  if (&&) ck (has_cookies obs)
   then perm_by (rout_eqb p) model obs
-  else perm_by (rout_eqb p) (drop_cookies model) obs
+  else perm_by (rout_eqb p) (drop_cookies model) (drop_cookies obs)
 
 (** val rreplay :
-    proj -> config -> z -> rstate list -> (revent * rout list) list -> nat ->
-    (nat * rout list list) option **)
+    proj -> bool -> config -> z -> rstate list -> (revent * rout list) list
+    -> nat -> (nat * rout list list) option **)
 
-let rec rreplay p cfg tmo cands h i =
+let rec rreplay p ck cfg tmo cands h i =
   match h with
   | [] -> None
   | p0 :: h' ->
     let (ev, obs) = p0 in
     let nexts = flat_map (fun st -> rstep cfg tmo st ev) cands in
-    (match filter (fun pat -> let (_, o) = pat in routs_eqb p o obs) nexts with
+    (match filter (fun pat -> let (_, o) = pat in routs_eqb p ck o obs) nexts with
      | [] -> Some (i, (map snd nexts))
-     | p1 :: l -> rreplay p cfg tmo (map fst (p1 :: l)) h' (S i))
+     | p1 :: l -> rreplay p ck cfg tmo (map fst (p1 :: l)) h' (S i))
 
 (** val rreplay_history :
-    proj -> config -> z -> (revent * rout list) list -> (nat * rout list
-    list) option **)
+    proj -> bool -> config -> z -> (revent * rout list) list -> (nat * rout
+    list list) option **)
 
-let rreplay_history p cfg tmo h =
-  rreplay p cfg tmo ((rinit cfg) :: []) h O
+let rreplay_history p ck cfg tmo h =
+  rreplay p ck cfg tmo ((rinit cfg) :: []) h O
 
 (** val rhas_tie : config -> z -> rstate -> revent list -> bool **)
 
